@@ -96,9 +96,9 @@ func (o *op) text() string {
 		return fmt.Sprintf("N:%d:%s", o.sys, o.inner.text())
 	}
 	if o.holder != "" {
-		return fmt.Sprintf("G:%c:%s:%s", o.form, lib.Hex(o.link), o.holder)
+		return fmt.Sprintf("G:%c:%s:%s", o.form, lib.LkHex(o.link), o.holder)
 	}
-	return fmt.Sprintf("G:%c:%s", o.form, lib.Hex(o.link))
+	return fmt.Sprintf("G:%c:%s", o.form, lib.LkHex(o.link))
 }
 
 func parseOp(s string) (*op, error) {
@@ -243,16 +243,16 @@ func linkObs(status string, l datamodel.Link) string {
 	if l == nil {
 		return status + "/-"
 	}
-	return status + "/" + lib.Hex(l.Binary())
+	return status + "/" + lib.LkHex(l.Binary())
 }
 
 func loadObs(status string, n datamodel.Node, raw []byte, rawReturned bool) string {
 	ns, rs := "-", "-"
 	if n != nil {
-		ns = lib.Dump(n)
+		ns = lib.LkDump(n)
 	}
 	if rawReturned {
-		rs = "x" + lib.Hex(string(raw))
+		rs = "x" + lib.LkHex(string(raw))
 	}
 	return status + "/" + ns + "/" + rs
 }
@@ -283,7 +283,7 @@ type runner struct {
 func (rn *runner) retain(n datamodel.Node, raw []byte, hasRaw bool) {
 	k := &kept{slot: rn.cur, node: n, raw: raw, hasRaw: hasRaw}
 	if n != nil {
-		k.nodeWas = lib.Dump(n)
+		k.nodeWas = lib.LkDump(n)
 	}
 	if hasRaw {
 		k.rawWas = string(raw)
@@ -303,7 +303,7 @@ func (rn *runner) recheck(all bool) {
 		}
 		if k.node != nil {
 			now := ""
-			if err := lib.Safely(func() error { now = lib.Dump(k.node); return nil }); err != nil {
+			if err := lib.Safely(func() error { now = lib.LkDump(k.node); return nil }); err != nil {
 				now = "!panic"
 			}
 			if now != k.nodeWas {
@@ -493,7 +493,7 @@ func (rn *runner) finish() (string, string) {
 	}
 	var ents []string
 	for k, b := range rn.w.bag() {
-		ents = append(ents, lib.Hex(k)+"="+lib.Hex(string(b)))
+		ents = append(ents, lib.LkHex(k)+"="+lib.LkHex(string(b)))
 	}
 	sort.Strings(ents)
 	rn.cur = len(rn.obs)
